@@ -339,3 +339,34 @@ Definition json_escape (g_hex : bytes) (m_safeSet : list (Z * bool)) (val : byte
     end.
 Definition translated_json_escape := true.
 
+(* PrintCtx.appendQuotedString  (returns s.buf; None = panic / out of fuel) *)
+   (* no tracked effect (declared): s.PreAlloc(len(str)*2 + 2) *)
+Definition quoted_string (isprint f_isInGraphicList : Z -> bool) (g_hex : bytes) (m_safeSet : list (Z * bool)) (s_jsonMode : bool) (s_buf : bytes) (str : bytes) : option bytes :=
+  if s_jsonMode
+  then let s_buf := s_buf ++ [zb 34] in
+  match json_escape g_hex m_safeSet str s_buf with
+    | None => None
+    | Some s_buf => let s_buf := s_buf ++ [zb 34] in
+      Some (s_buf)
+    end
+  else match quote_with isprint f_isInGraphicList g_hex s_buf str 34 false false with
+    | None => None
+    | Some r1_ => let s_buf := r1_ in
+      Some (s_buf)
+    end.
+Definition translated_quoted_string := true.
+
+(* PrintCtx.pcAppendStringKey  (returns s.buf; None = panic / out of fuel) *)
+   (* no tracked effect (declared): s.preCheck() *)
+Definition string_key (g_hex : bytes) (m_safeSet : list (Z * bool)) (s_jsonMode : bool) (s_buf : bytes) (str : bytes) : option bytes :=
+  if s_jsonMode
+  then let s_buf := s_buf ++ [zb 34] in
+  match json_escape g_hex m_safeSet str s_buf with
+    | None => None
+    | Some s_buf => let s_buf := s_buf ++ [zb 34] in
+      Some (s_buf)
+    end
+  else let s_buf := s_buf ++ str in
+  Some (s_buf).
+Definition translated_string_key := true.
+
